@@ -322,6 +322,36 @@ def member_rule(chk, prog):
                         cond.ops[1].is_const and cond.ops[1].is_int and cond.ops[1].sval == XEND and \
                         outcome == (cond.pred == "eq"):
                     bad = br
+        # any exit of the loop decided by the codec's answer alone must not fire for OK (0) or END (1)
+        if bad is None:
+            for b in body:
+                t = b.term
+                if t.op != "br" or len(t.x["succ"]) != 2:
+                    continue
+                cond = t.ops[0]
+                if not (cond.is_inst and cond.op == "icmp" and strip_casts(cond.ops[0]) is c and cond.ops[1].is_const and cond.ops[1].is_int):
+                    continue
+                k = cond.ops[1].sval
+                for val in (0, XEND):
+                    truth = eval_icmp(cond.pred, val, k)
+                    succ = t.x["succ"][0] if truth else t.x["succ"][1]
+                    # does that edge leave the loop without coming back?
+                    seenb, stack, leaves = set(), [succ], False
+                    while stack:
+                        bb_ = stack.pop()
+                        if bb_ in seenb:
+                            continue
+                        seenb.add(bb_)
+                        if bb_ not in body:
+                            leaves = True
+                            break
+                        if bb_ is header:
+                            continue
+                        # stop at the next conditional decision: only unconditional fall-out counts
+                        if bb_.term.op == "br" and len(bb_.term.x["succ"]) == 1:
+                            stack.extend(bb_.succs)
+                    if leaves and succ not in body:
+                        bad = t
         if bad is None:
             chk.ok("K1-member", inst, c, "the refill loop never stops because a compressed member ended; it stops on error, full "
                    "buffer, or the wrapped stream's end of input")
